@@ -379,6 +379,7 @@ theorem used_startTop {s : St} (hst : s.stack = []) (hw : s.wq = []) (t : Nat) (
   case gc => exact used_of_top (g := .gc) (rest := []) (by simp [St.push, St.emit, hst]) trivial
   case poll => exact used_of_top (g := .poll) (rest := []) (by simp [St.push, St.emit, hst]) trivial
   case frameEnd => exact used_of_top (g := .gc) (rest := [.poll]) (by simp [St.push, St.emit, hst]) trivial
+  case clearTrackers => exact used_of_allOK (by simp [St.emit, hst]; exact allOK_nil) (by simp [St.emit, hw])
   case wSysEvent sys ty pid => exact happly _ _ (by simp [St.emit, St.fresh, hst]) (by simp [St.emit, St.fresh, hw]) rfl
   case wBroadcast ty pid => exact happly _ _ (by simp [St.emit, hst]) (by simp [St.emit, hw]) rfl
   case wEntityEvent e ty pid => exact happly _ _ (by simp [St.emit, hst]) (by simp [St.emit, hw]) rfl
